@@ -10,8 +10,9 @@ use crate::run::{Flt, Res, Runner, Signal};
 use rubato::VecResampler;
 use serde_json::{json, Map, Value};
 
-fn lattice(tier: Tier, channels: &[usize]) -> Vec<Cfg> {
-    let q = tier == Tier::Quick;
+fn lattice(_tier: Tier, channels: &[usize]) -> Vec<Cfg> {
+    // the quick tier uses the full configuration lattice too (it costs seconds); tiers differ in depth
+    let q = false;
     let mut v = Vec::new();
     let ratios: Vec<f64> = if q { vec![0.5] } else { vec![0.5, 147.0 / 160.0, 2.0] };
     for &n in channels {
@@ -238,17 +239,22 @@ impl Check for C11 {
         "E1 unmerged: every history over the alphabet up to the depth, executed on n-channel objects, single-channel twins and every constant mask"
     }
     fn n_items(&self, tier: Tier) -> usize {
-        lattice(tier, if tier == Tier::Quick { &[1, 2, 3] } else { &[1, 2, 3, 8] }).len()
+        lattice(tier, &[1, 2, 3, 8]).len()
     }
     fn run_item(&self, tier: Tier, idx: usize, journal: Option<&JournalFile>) -> Result<Value, String> {
-        let cfg = lattice(tier, if tier == Tier::Quick { &[1, 2, 3] } else { &[1, 2, 3, 8] }).into_iter().nth(idx).ok_or("no item")?;
+        let cfg = lattice(tier, &[1, 2, 3, 8]).into_iter().nth(idx).ok_or("no item")?;
         let mut acc = Acc::new();
-        let depth = if tier == Tier::Quick { 4 } else if cfg.channels == 8 { 4 } else { 5 };
+        let depth = match (tier, cfg.channels) {
+            (Tier::Quick, 8) => 4,
+            (Tier::Quick, _) => 5,
+            (Tier::Thorough, 8) => 5,
+            (Tier::Thorough, _) => 6,
+        };
         c11_one(&mut acc, &cfg, depth, journal)?;
         Ok(acc.json(cfg.short()))
     }
     fn finalize(&self, tier: Tier, _items: &[Value], cov: &mut Map<String, Value>) {
-        cov.insert("history_depth".into(), json!(if tier == Tier::Quick { "4" } else { "5 (4 for 8 channels)" }));
+        cov.insert("history_depth".into(), json!(if tier == Tier::Quick { "5 (4 for 8 channels)" } else { "6 (5 for 8 channels)" }));
         cov.insert("states_note".into(), json!("states = complete histories executed on the multi-channel object (each also on n single-channel twins or under one mask); transitions = real API calls"));
     }
     fn replay(&self, replay: &Value) -> Result<(bool, String), String> {
@@ -550,7 +556,7 @@ impl Check for C16 {
     fn run_item(&self, tier: Tier, idx: usize, journal: Option<&JournalFile>) -> Result<Value, String> {
         let cfg = lattice(tier, &[2]).into_iter().nth(idx).ok_or("no item")?;
         let mut acc = Acc::new();
-        let depth = if tier == Tier::Quick { 3 } else { 4 };
+        let depth = if tier == Tier::Quick { 4 } else { 5 };
         let alpha = alphabet(&cfg, true);
         for d in 0..=depth {
             for h in histories(&alpha, d) {
@@ -558,7 +564,7 @@ impl Check for C16 {
                     j.write(&cfg.to_json(), &history_text(&h));
                 }
                 c16_state::<f64>(&mut acc, &cfg, &h)?;
-                if tier == Tier::Thorough && d <= 3 {
+                if d <= 3 {
                     c16_state::<f32>(&mut acc, &cfg, &h)?;
                 }
             }
@@ -569,7 +575,7 @@ impl Check for C16 {
         Ok(acc.json(cfg.short()))
     }
     fn finalize(&self, tier: Tier, _items: &[Value], cov: &mut Map<String, Value>) {
-        cov.insert("history_depth".into(), json!(if tier == Tier::Quick { 3 } else { 4 }));
+        cov.insert("history_depth".into(), json!(if tier == Tier::Quick { 4 } else { 5 }));
         cov.insert("states_note".into(), json!("states = twin comparisons executed (one per reached state x wrapper x mask/partial length); transitions = real API calls made for them"));
     }
     fn replay(&self, replay: &Value) -> Result<(bool, String), String> {
